@@ -44,6 +44,9 @@ func RunC01(ctx *core.Ctx) {
 			r := ctx.Rand("c01/" + e.Name)
 			for k := 0; k < ncases; k++ {
 				n := []int{0, 1, 2, 3, 9, 33, 64, 65, 100, 257, 300}[r.Intn(11)]
+				if k == 1 || r.Intn(12) == 0 {
+					n = []int{600, 1100, 2100}[r.Intn(3)]
+				}
 				prof := &gen.Profile{NullProb: []float64{0.1, 0.5, 0.9}[r.Intn(3)], MaxLen: 1 + r.Intn(4), SmallDomain: r.Intn(3) == 0}
 				if r.Intn(3) == 0 {
 					prof.RunLen = 70
